@@ -487,7 +487,10 @@ def main(argv):
             if k.get("status") == "open" and k["property"] == prop and k["obligation"] == o["id"]:
                 sites = k.get("sites")
                 locs = [e.get("repo_loc") for e in o["failed"]] if o.get("ur") is not None else []
-                if sites is None or all(any(s in (l or "") for s in sites) for l in locs):
+                rx = k.get("every_error_matches")     # pins the finding to ONE failure: any other failing error of the same obligation is still a violation
+                texts = [e.get("rendered", "") for e in o["failed"]]
+                if (sites is None or all(any(s in (l or "") for s in sites) for l in locs)) and \
+                        (rx is None or all(re.search(rx, t, re.S) for t in texts)):
                     match = k
         if match:
             kf_lines.append(f"KNOWN-FINDING: property={prop} {o['id']} — {match['what']}")
